@@ -1287,7 +1287,7 @@ example : sciDigits 3 2 3 = (6667, -1) ∧ decExp 2 3 = -1 ∧ sciDigits 3 19999
 open SharkVerif.Import.Export in
 /-- **C19, second sentence, `exportCSV` → `csvStringToData` FROM BYTES (unlabelled data and vector labels).**  For every
 non-empty dataset of binary64 values with `d ≥ 1` inputs (and `dOut` outputs), every separator / comment character
-admitted by `SepOk` (the separator is not white space, NUL, a character of a number, `E`, `i`/`I` or `(`; the
+allowed by `SepOk` (the separator is not white space, NUL, a character of a number, `E`, `i`/`I` or `(`; the
 comment character is not a character of a number or the line feed), scientific format on or off, field width 0,
 label position first or last and every maximum batch size (0 = unlimited): the exporter writes some bytes, and
 importing these bytes returns the dataset with the same number of elements, the same dimensions and batch partition
@@ -1342,6 +1342,76 @@ theorem csv_export_import_bytes {sep comment : Char} (hs : SepOk sep comment) (s
       hd (by simpa using hne)
     simp only [List.map_map, Function.comp_def, List.length_map] at h ⊢
     exact h
+
+open SharkVerif.Import.Export in
+/-- **C19, second sentence, `exportCSV` → `csvStringToData` FROM BYTES, class labels in the first column.**  For every
+non-empty labelled dataset (class indices below 2^31 with class 0 present, `d ≥ 1` inputs of binary64 values), every
+`SepOk` separator / comment character, scientific format on or off, field width 0 and every maximum batch size: the
+exported bytes are read by the FIRST_COLUMN point grammar (`lexeme[int_ >> -('.' >> *'0') >> !digit] >> *(sep >> cell)`)
+record by record, and the import yields the same labels, dimensions and batch partition with every input value
+`reimportCsv sci v`. -/
+theorem csv_export_import_bytes_class_first {sep comment : Char} (hs : SepOk sep comment) (sci : Bool) (maxB : Nat)
+    (pts : List (Nat × List Val)) (d : Nat) (hne : pts ≠ []) (hd : 0 < d)
+    (hpt : ∀ p ∈ pts, p.1 ≤ 2147483647 ∧ p.2.length = d ∧ ∀ v ∈ p.2, isDouble v = true)
+    (h0 : 0 ∈ pts.map (·.1)) :
+    ∃ bytes, csvClass pts true sep sci 0 = some bytes ∧
+      Csv.importClassBytes bytes true sep comment maxB =
+        .ok { shape := some d, lshape := none, batches := optimalBatchSizes pts.length maxB,
+              rows := pts.map (fun p => Row.dense (p.2.map (reimportCsv sci))), labels := .cls (pts.map (·.1)) } := by
+  obtain ⟨bytes, hb, hread⟩ := readPointsFirst_csvClass hs sci pts hne (fun p hp => by
+    refine ⟨(hpt p hp).1, ?_, (hpt p hp).2.2⟩
+    intro h; have := (hpt p hp).2.1; rw [h] at this; simp at this; omega)
+  refine ⟨bytes, hb, ?_⟩
+  unfold Csv.importClassBytes
+  simp only [if_true, hread]
+  have h := csv_roundtrip (pts.map fun p => (p.1, p.2.map (reimportCsv sci))) d maxB
+    (by intro p' hp'; obtain ⟨p, hp, rfl⟩ := List.mem_map.mp hp'; simp [(hpt p hp).2.1])
+    (by simpa using hne) (by simpa [List.map_map, Function.comp_def] using h0)
+  simp only [List.map_map, Function.comp_def, List.length_map] at h ⊢
+  exact h
+
+open SharkVerif.Import.Export in
+/-- non-vacuity: classes 0 / 1 in the first column, `%.10g`, `|` as separator -/
+example : csvClass [(0, [Val.fin false 5 (-1), Val.fin true 1 0]), (1, [Val.fin false 3 0, Val.fin false 1 (-2)])] true '|' false 0
+      = some "0|2.5|-1\n1|3|0.25\n".toList ∧
+    Csv.importClassBytes "0|2.5|-1\n1|3|0.25\n".toList true '|' '#' 1
+      = .ok { shape := some 2, lshape := none, batches := [1, 1],
+              rows := [.dense [Val.fin false 5 (-1), Val.fin true 1 0], .dense [Val.fin false 3 0, Val.fin false 1 (-2)]],
+              labels := .cls [0, 1] } := by decide
+
+open SharkVerif.Import.Export in
+/-- **C19, second sentence, `exportCSV` → `csvStringToData` FROM BYTES, class labels in the last column.**  As
+`csv_export_import_bytes_class_first`, for LAST_COLUMN: the exported bytes are consumed by the hand-written record loop
+(`do { phrase_parse(*(cell >> sep) >> label >> (+eol | eoi)) } while(r && first != last)`) one record per call — the
+`cell >> sep` loop backs off the label token because a line feed, not the separator, follows it — and the import
+yields the same labels, dimensions, batch partition, with every input value `reimportCsv sci v`. -/
+theorem csv_export_import_bytes_class_last {sep comment : Char} (hs : SepOk sep comment) (sci : Bool) (maxB : Nat)
+    (pts : List (Nat × List Val)) (d : Nat) (hne : pts ≠ []) (hd : 0 < d)
+    (hpt : ∀ p ∈ pts, p.1 ≤ 2147483647 ∧ p.2.length = d ∧ ∀ v ∈ p.2, isDouble v = true)
+    (h0 : 0 ∈ pts.map (·.1)) :
+    ∃ bytes, csvClass pts false sep sci 0 = some bytes ∧
+      Csv.importClassBytes bytes false sep comment maxB =
+        .ok { shape := some d, lshape := none, batches := optimalBatchSizes pts.length maxB,
+              rows := pts.map (fun p => Row.dense (p.2.map (reimportCsv sci))), labels := .cls (pts.map (·.1)) } := by
+  obtain ⟨bytes, hb, hread⟩ := readPointsLast_csvClass hs sci pts hne (fun p hp => by
+    refine ⟨(hpt p hp).1, ?_, (hpt p hp).2.2⟩
+    intro h; have := (hpt p hp).2.1; rw [h] at this; simp at this; omega)
+  refine ⟨bytes, hb, ?_⟩
+  unfold Csv.importClassBytes
+  simp only [Bool.false_eq_true, if_false, hread]
+  have h := csv_roundtrip (pts.map fun p => (p.1, p.2.map (reimportCsv sci))) d maxB
+    (by intro p' hp'; obtain ⟨p, hp, rfl⟩ := List.mem_map.mp hp'; simp [(hpt p hp).2.1])
+    (by simpa using hne) (by simpa [List.map_map, Function.comp_def] using h0)
+  simp only [List.map_map, Function.comp_def, List.length_map] at h ⊢
+  exact h
+
+open SharkVerif.Import.Export in
+/-- non-vacuity: classes 0 / 1 in the last column, scientific format, `,` -/
+example : csvClass [(0, [Val.fin false 5 (-1)]), (1, [Val.fin true 3 0])] false ',' true 0
+      = some "2.5000000000e+00,0\n-3.0000000000e+00,1\n".toList ∧
+    Csv.importClassBytes "2.5000000000e+00,0\n-3.0000000000e+00,1\n".toList false ',' '#' 0
+      = .ok { shape := some 1, lshape := none, batches := [2],
+              rows := [.dense [Val.fin false 5 (-1)], .dense [Val.fin true 3 0]], labels := .cls [0, 1] } := by decide
 
 open SharkVerif.Import.Export in
 /-- non-vacuity: the separator / comment pairs of the generated stream satisfy `SepOk`; blanks, NUL, characters of a
